@@ -349,7 +349,7 @@ pub fn run(r: &Run) {
     r.assume("the value of the pre-OPEN (OpenSent) timer is implementation-chosen and not checked; scripts that let it expire before the OPEN arrives are not judged");
     r.prop("timed-scripts", r.tier.pick(300_000, 5_000_000), || arb_case(r.tier.pick(24, 60)), check);
     r.assume(DRIVER_RULE);
-    r.prop("driver-timed-scripts", r.tier.pick(3_000, 100_000), || arb_driver_case(r.tier.pick(12, 24)), check_driver);
+    r.slow(|| r.prop("driver-timed-scripts", r.tier.pick(3_000, 100_000), || arb_driver_case(r.tier.pick(12, 24)), check_driver));
 }
 
 pub fn replay(sub: &str, case: &Value) -> Result<CheckResult, String> {
